@@ -355,6 +355,22 @@ ADDED9 = {
  "C20": "Borrowed-conversion histories on the real file system (kill, owner replaces or removes the folder, resume).",
 }
 
+ADDED10 = {
+ "C01": "Negative reads with two extra terminal exons; A-rich short terminal exon.",
+ "C03": "Reference sequence names equal under case-insensitive natural ordering; MIX structure PH.",
+ "C06": "Configuration two-experiments.",
+ "C07": "World w14 (inputs through symbolic links).",
+ "C09": "Groupers built through the option parser.",
+ "C10": "Gene with a non-canonical annotated intron.",
+ "C11": "L0 isoform profiles (triples of isoforms vs mirror image).",
+ "C12": "Reads whose secondary record wins.",
+ "C13": "Equal intron chains with truncated / extended terminal blocks.",
+ "C14": "Short reads with deletions next to junctions.",
+ "C15": "Every list length up to 300 and around 2^16.",
+ "C16": "Level D: the tail window scan against its definition over every string over {A, C}.",
+ "C20": "SCHED-FS mode fai (reference index: fresh, three runs, stale index).",
+}
+
 
 def main():
     props = [json.loads(l) for l in open(os.path.join(HERE, "properties.jsonl"))]
@@ -364,7 +380,7 @@ def main():
         pid = p["id"]
         if pid in CHECKS:
             level, tech, text, note, ref = CHECKS[pid]
-            text = text + ADDED.get(pid, "") + (" " + ADDED2[pid] if pid in ADDED2 else "") + (" " + ADDED3[pid] if pid in ADDED3 else "") + (" " + ADDED4[pid] if pid in ADDED4 else "") + (" " + ADDED5[pid] if pid in ADDED5 else "") + (" " + ADDED6[pid] if pid in ADDED6 else "") + (" " + ADDED7[pid] if pid in ADDED7 else "") + (" " + ADDED8[pid] if pid in ADDED8 else "") + (" " + ADDED9[pid] if pid in ADDED9 else "")
+            text = text + ADDED.get(pid, "") + (" " + ADDED2[pid] if pid in ADDED2 else "") + (" " + ADDED3[pid] if pid in ADDED3 else "") + (" " + ADDED4[pid] if pid in ADDED4 else "") + (" " + ADDED5[pid] if pid in ADDED5 else "") + (" " + ADDED6[pid] if pid in ADDED6 else "") + (" " + ADDED7[pid] if pid in ADDED7 else "") + (" " + ADDED8[pid] if pid in ADDED8 else "") + (" " + ADDED9[pid] if pid in ADDED9 else "") + (" " + ADDED10[pid] if pid in ADDED10 else "")
             checks.append({
                 "property_id": pid,
                 "quick_cmd": "./check %s --tier quick" % pid,
